@@ -55,10 +55,13 @@ type GenRes struct {
 
 // Edge: the field at Path of resource From holds the name of resource To.
 type Edge struct {
-	NoRule bool // the field is not covered by the name-reference rules: must stay UNCHANGED (external-looking)
-	From   string
-	Path   []interface{} // string keys and int indices
-	To     string
+	// Subject: a `subjects[i]` entry of a (Cluster)RoleBinding — it names its account together with the account's own
+	// namespace, so it legitimately points across namespaces
+	Subject bool
+	NoRule  bool // the field is not covered by the name-reference rules: must stay UNCHANGED (external-looking)
+	From    string
+	Path    []interface{} // string keys and int indices
+	To      string
 }
 
 type KLayer struct {
@@ -577,38 +580,93 @@ func (t *Tree) genReferrers(r *rand.Rand, li int, here []*GenRes, uniq func(kind
 			e.NoRule = !ruleFrozen("Service", "Ingress", "spec/rules/http/paths/backend/service/name")
 			t.Edges = append(t.Edges, e)
 		case "Role", "ClusterRole":
-			kind := "RoleBinding"
-			ns := b.NS
-			if b.Kind == "ClusterRole" && r.Intn(2) == 0 {
-				kind, ns = "ClusterRoleBinding", ""
-			}
-			name := "rb-" + b.Name
-			if !uniq(kind, name, ns) {
-				continue
-			}
-			id := t.newID()
-			o := Obj{"apiVersion": "rbac.authorization.k8s.io/v1", "kind": kind, "metadata": meta(id, name, ns, nil),
-				"roleRef": Obj{"apiGroup": "rbac.authorization.k8s.io", "kind": b.Kind, "name": b.Name}}
-			var subj []interface{}
-			for _, sa := range here {
-				if sa.Kind == "ServiceAccount" && r.Intn(2) == 0 {
-					sns := sa.NS
-					if sns == "" {
-						sns = "default"
-					}
-					subj = append(subj, Obj{"kind": "ServiceAccount", "name": sa.Name, "namespace": sns})
+			for _, rbPrefix := range []string{"rb-", "rb2-"} {
+				// (a second binding of the same role in the same namespace, with its own choice of subjects, now and then)
+				if rbPrefix == "rb2-" && r.Intn(3) != 0 {
+					continue
 				}
+				kind := "RoleBinding"
+				ns := b.NS
+				if b.Kind == "ClusterRole" && r.Intn(2) == 0 {
+					kind, ns = "ClusterRoleBinding", ""
+				}
+				name := rbPrefix + b.Name
+				if !uniq(kind, name, ns) {
+					continue
+				}
+				id := t.newID()
+				o := Obj{"apiVersion": "rbac.authorization.k8s.io/v1", "kind": kind, "metadata": meta(id, name, ns, nil),
+					"roleRef": Obj{"apiGroup": "rbac.authorization.k8s.io", "kind": b.Kind, "name": b.Name}}
+				var subj []interface{}
+				var subjEdges []Edge
+				for _, sa := range here {
+					if sa.Kind == "ServiceAccount" && r.Intn(2) == 0 {
+						sns := sa.NS
+						if sns == "" {
+							sns = "default"
+						}
+						subjEdges = append(subjEdges, Edge{Subject: true, From: id, Path: ipath(nil, "subjects", len(subj), "name"), To: sa.ID,
+							NoRule: !ruleFrozen("ServiceAccount", kind, "subjects")})
+						subj = append(subj, Obj{"kind": "ServiceAccount", "name": sa.Name, "namespace": sns})
+					}
+				}
+				subj = append(subj, Obj{"kind": "User", "name": "someone", "apiGroup": "rbac.authorization.k8s.io"})
+				o["subjects"] = subj
+				g := t.addRes(li, kind, name, ns, o)
+				out = append(out, g)
+				e := Edge{From: id, Path: ipath(nil, "roleRef", "name"), To: b.ID}
+				e.NoRule = !ruleFrozen(b.Kind, kind, "roleRef/name")
+				t.Edges = append(t.Edges, e)
+				t.Edges = append(t.Edges, subjEdges...)
 			}
-			subj = append(subj, Obj{"kind": "User", "name": "someone", "apiGroup": "rbac.authorization.k8s.io"})
-			o["subjects"] = subj
-			g := t.addRes(li, kind, name, ns, o)
-			out = append(out, g)
-			e := Edge{From: id, Path: ipath(nil, "roleRef", "name"), To: b.ID}
-			e.NoRule = !ruleFrozen(b.Kind, kind, "roleRef/name")
-			t.Edges = append(t.Edges, e)
 		}
 	}
 	return out
+}
+
+// addRBACCluster adds, to layer li, accounts in two namespaces, a role, and several bindings of that role in ONE
+// namespace whose subject lists differ: the first names local accounts only (or none), a later one names an account
+// of the other namespace.  Every subject is a reference edge.
+func (t *Tree) addRBACCluster(r *rand.Rand, li int) {
+	L := t.Layers[li]
+	nsA, nsB := pickS(r, []string{"rbac-a", "rbac-a", ""}), pickS(r, []string{"rbac-b", "rbac-c"})
+	tag := fmt.Sprintf("l%d", li)
+	var docs []Obj
+	add := func(kind, name, ns string, o Obj) *GenRes {
+		g := t.addRes(li, kind, name, ns, o)
+		docs = append(docs, o)
+		return g
+	}
+	mkSA := func(name, ns string) *GenRes {
+		id := t.newID()
+		return add("ServiceAccount", name, ns, Obj{"apiVersion": "v1", "kind": "ServiceAccount", "metadata": meta(id, name, ns, nil)})
+	}
+	saA, saB := mkSA("acct-a-"+tag, nsA), mkSA("acct-b-"+tag, nsB)
+	rid := t.newID()
+	role := add("Role", "role-"+tag, nsA, Obj{"apiVersion": "rbac.authorization.k8s.io/v1", "kind": "Role", "metadata": meta(rid, "role-"+tag, nsA, nil),
+		"rules": []interface{}{Obj{"apiGroups": []interface{}{""}, "resources": []interface{}{"pods"}, "verbs": []interface{}{"get"}}}})
+	subjectSets := [][]*GenRes{{saA}, {saB}, {saA, saB}, {}}
+	r.Shuffle(len(subjectSets), func(i, j int) { subjectSets[i], subjectSets[j] = subjectSets[j], subjectSets[i] })
+	for i, set := range subjectSets[:2+r.Intn(2)] {
+		id := t.newID()
+		name := fmt.Sprintf("bind%d-%s", i, tag)
+		var subj []interface{}
+		for _, sa := range set {
+			sns := sa.NS
+			if sns == "" {
+				sns = "default"
+			}
+			t.Edges = append(t.Edges, Edge{Subject: true, From: id, Path: ipath(nil, "subjects", len(subj), "name"), To: sa.ID,
+				NoRule: !ruleFrozen("ServiceAccount", "RoleBinding", "subjects")})
+			subj = append(subj, Obj{"kind": "ServiceAccount", "name": sa.Name, "namespace": sns})
+		}
+		subj = append(subj, Obj{"kind": "User", "name": "someone", "apiGroup": "rbac.authorization.k8s.io"})
+		add("RoleBinding", name, nsA, Obj{"apiVersion": "rbac.authorization.k8s.io/v1", "kind": "RoleBinding", "metadata": meta(id, name, nsA, nil),
+			"roleRef": Obj{"apiGroup": "rbac.authorization.k8s.io", "kind": "Role", "name": role.Name}, "subjects": subj})
+		t.Edges = append(t.Edges, Edge{From: id, Path: ipath(nil, "roleRef", "name"), To: role.ID, NoRule: !ruleFrozen("Role", "RoleBinding", "roleRef/name")})
+	}
+	L.ResF = append(L.ResF, "rbac.yaml")
+	L.Docs["rbac.yaml"] = docs
 }
 
 // ---- tree generation ----
